@@ -1683,7 +1683,38 @@ func calleeShortName(c *ssa.CallCommon) string {
 	if f := c.StaticCallee(); f != nil {
 		return f.Name()
 	}
+	if prm := paramOfFuncValue(c.Value); prm != nil {
+		return prm.Name()
+	}
 	return c.Value.Name()
+}
+
+// paramOfFuncValue: the function-typed parameter a called value comes from
+// (in naive form: a load of the local the parameter was spilled to, provided
+// that local is never reassigned).
+func paramOfFuncValue(v ssa.Value) *ssa.Parameter {
+	if p, ok := v.(*ssa.Parameter); ok {
+		return p
+	}
+	u, ok := v.(*ssa.UnOp)
+	if !ok || u.Op != token.MUL {
+		return nil
+	}
+	a, ok := u.X.(*ssa.Alloc)
+	if !ok || a.Referrers() == nil {
+		return nil
+	}
+	var prm *ssa.Parameter
+	for _, r := range *a.Referrers() {
+		if st, ok := r.(*ssa.Store); ok && st.Addr == ssa.Value(a) {
+			p, isP := st.Val.(*ssa.Parameter)
+			if !isP || prm != nil {
+				return nil
+			}
+			prm = p
+		}
+	}
+	return prm
 }
 
 var bigOne = new(bigInt).SetInt64(1)
